@@ -126,7 +126,16 @@ def gen_case_B(tape, tier):
     cfg = {"workers": 1 + tape.choose(3, "workers"), "start": tape.pick(["fifo", "any"], "start"),
            "preempt": tape.pick([0.3, 0.6, 0.9], "preempt"), "storage": tape.pick(["dict", "file_array"], "storage"),
            "mode": tape.pick(["process", "process", "thread"], "mode")}
-    return {"part": "B", "xs": xs, "chain": chain, "reduce": reduce_, "cache": cache, "config": cfg}
+    # the cache was invalidated before the map (what every pipeline mutation does): its internals must still be
+    # the shared ones afterwards
+    cfg["clear_before_map"] = bool(tape.coin(0.3, "clear-before-map"))
+    case = {"part": "B", "xs": xs, "chain": chain, "reduce": reduce_, "cache": cache, "config": cfg}
+    if tape.coin(0.25, "resources"):
+        case["resources"] = tape.pick(["map", "element"], "resources-scope")
+    if tape.coin(0.4, "second-map"):
+        # a second map on the same pipeline and cache: other inputs as a whole, shared element values
+        case["xs2"] = [tape.choose(nvals, "xval") for _ in range(1 + tape.choose(5, "n2"))]
+    return case
 
 
 def simplify(case):
@@ -476,7 +485,15 @@ def _c(v):
 def build_B(case, cached):
     from pipefunc import PipeFunc, Pipeline
 
-    pfs = [PipeFunc(Fn("f0", ["x"]), "y0", mapspec="x[i] -> y0[i]", cache=cached)]
+    if case.get("resources"):
+        from sim.userfuncs import ResFn
+
+        # the function receives resources evaluated from the WHOLE map inputs (resources_scope='map'): they are part
+        # of what the result depends on
+        pfs = [PipeFunc(Fn("f0", ["x", "res"]), "y0", mapspec="x[i] -> y0[i]", cache=cached, resources=ResFn("x"),
+                        resources_variable="res", resources_scope=case["resources"])]
+    else:
+        pfs = [PipeFunc(Fn("f0", ["x"]), "y0", mapspec="x[i] -> y0[i]", cache=cached)]
     for c in range(1, case["chain"]):
         pfs.append(PipeFunc(Fn(f"f{c}", [f"y{c - 1}"]), f"y{c}", mapspec=f"y{c - 1}[i] -> y{c}[i]", cache=cached))
     if case["reduce"]:
@@ -492,24 +509,29 @@ def run_B(case, tape):
         viol.append({"property": PID, "oracle": oracle, "kind": kind, "detail": detail,
                      "signature": dict({"part": "B", "cache_type": cache["type"]}, **(sig or {}))})
 
-    inputs = {"x": [f"x-{v}" for v in case["xs"]]}
+    all_inputs = [{"x": [f"x-{v}" for v in case["xs"]]}] + ([{"x": [f"x-{v}" for v in case["xs2"]]}] if case.get("xs2") else [])
     outs = [f"y{c}" for c in range(case["chain"])] + (["r"] if case["reduce"] else [])
-    # uncached sequential reference
-    ref_sim = C.new_sim(Tape(recorded=[]), preempt=0.0)
-    with ref_sim, warnings.catch_warnings():
-        warnings.simplefilter("ignore")
-        pfs, Pipeline = build_B(case, False)
-        p0 = Pipeline(pfs)
-        r0 = ref_sim.kernel.run(lambda: p0.map(inputs, parallel=False, storage="dict"))
-        R0 = {o: canon(r0[o].output) for o in outs}
-        ref_counts = {}
-        for c in ref_sim.calls:
-            ref_counts[c.fn] = ref_counts.get(c.fn, 0) + 1
+    # uncached sequential reference (one per map)
+    refs = []
+    for inputs in all_inputs:
+        ref_sim = C.new_sim(Tape(recorded=[]), preempt=0.0)
+        with ref_sim, warnings.catch_warnings():
+            warnings.simplefilter("ignore")
+            pfs, Pipeline = build_B(case, False)
+            p0 = Pipeline(pfs)
+            r0 = ref_sim.kernel.run(lambda: p0.map(inputs, parallel=False, storage="dict"))
+            counts0 = {}
+            for c in ref_sim.calls:
+                counts0[c.fn] = counts0.get(c.fn, 0) + 1
+            refs.append(({o: canon(r0[o].output) for o in outs}, counts0))
+    R0, ref_counts = refs[0]
+    inputs = all_inputs[0]
     with C.Scratch() as root, warnings.catch_warnings():
         warnings.simplefilter("ignore")
         sim = C.new_sim(tape, root, preempt=cfg["preempt"], clock=True)
         sim.fs.read_yields = cache["type"] == "disk"
         res = None
+        second = []
         with sim:
             def body():
                 ctype, ckw = cache_kwargs(cache, root)
@@ -517,8 +539,15 @@ def run_B(case, tape):
                     ckw["allow_cloudpickle"] = cache.get("cloudpickle", True)
                 pfs, Pipeline = build_B(case, True)
                 p = Pipeline(pfs, cache_type=ctype, cache_kwargs=ckw)
+                if cfg.get("clear_before_map") and p.cache is not None:
+                    p.cache.clear()
                 ex = C.SimExecutor(sim, mode=cfg["mode"], workers=cfg["workers"], start=cfg["start"])
-                return p.map(inputs, run_folder=os.path.join(root, "run"), executor=ex, storage=cfg["storage"])
+                r1 = p.map(inputs, run_folder=os.path.join(root, "run"), executor=ex, storage=cfg["storage"])
+                n1 = len(sim.calls)
+                if len(all_inputs) > 1:
+                    r2 = p.map(all_inputs[1], run_folder=os.path.join(root, "run2"), executor=ex, storage=cfg["storage"])
+                    second.append(({o: canon(r2[o].output) for o in outs}, n1))
+                return r1
 
             try:
                 res = sim.kernel.run(body)
@@ -535,8 +564,15 @@ def run_B(case, tape):
                 if got != R0[o]:
                     V("twin", "parallel-map-value-differs", {"output": o, "got": repr(got)[:300], "ref": repr(R0[o])[:300]})
                     break
+            if second and not viol:
+                R2, _n1 = second[0]
+                for o in outs:
+                    if R2[o] != refs[1][0][o]:
+                        V("twin", "second-parallel-map-value-differs", {"output": o, "got": repr(R2[o])[:300], "ref": repr(refs[1][0][o])[:300]})
+                        break
+                probes["second_map"] = 1
             counts = {}
-            for c in sim.calls:
+            for c in (sim.calls[: second[0][1]] if second else sim.calls):
                 counts[c.fn] = counts.get(c.fn, 0) + 1
             for f, n in counts.items():
                 if n > ref_counts.get(f, 0):
